@@ -1,5 +1,6 @@
 import Capella.Lemmas.DeclYaml
 import Capella.Lemmas.DeclSync
+import Capella.Lemmas.DeclPep440
 
 /-!
 # C13 — declarative sync is idempotent; instruction documents survive dump and load
@@ -23,6 +24,23 @@ when there is no metadata, two otherwise). -/
 theorem stream_roundtrip (instrs : List DVal) (md : List (Str × DVal)) (hi : WFlist instrs) (hm : WFkvs md) :
     loadWithMetadata (dumpDocs instrs md) = .ok (md, instrs) :=
   load_dump instrs md hi hm
+
+/-- **The version matcher is exact**: `_is_pep440` accepts a string iff it is
+`[N!]N(.N)*[(a|b|rc)N][.postN][.devN]` with every `N` a decimal number without leading zeros
+(no local versions, no separators other than `.`, no implicit numbers). -/
+theorem pep440_exact (str : Str) : isPep440 str = true ↔ ∃ v : Ver, v.WF ∧ v.render = str :=
+  ⟨isPep440_sound str, fun ⟨v, hv, hs⟩ => hs ▸ isPep440_complete v hv⟩
+
+/-- `_verify_metadata` accepts exactly when a metadata block is present, names a well-formed writer
+version that is not newer than the running one, and URL, revision and entry point equal the model's. -/
+theorem verify_ok_iff (newEnough : Bool) (info : Info) (m : Meta) :
+    verifyMetadata newEnough info m = .ok () ↔
+      m.present = true ∧ m.writtenBy ≠ [] ∧ isPep440 m.writtenBy = true ∧ newEnough = true ∧
+      m.url = info.url ∧ m.revision = info.revHash ∧ m.entrypoint = info.entrypoint := by
+  unfold verifyMetadata
+  cases hp : m.present <;> cases hw : m.writtenBy <;> cases h4 : isPep440 m.writtenBy <;> cases newEnough <;>
+    by_cases hu : m.url = info.url <;> by_cases hr : m.revision = info.revHash <;>
+    by_cases he : m.entrypoint = info.entrypoint <;> simp_all
 
 /-! ## sync -/
 
@@ -145,6 +163,9 @@ example : WF sample := by
 
 example : (match loadWithMetadata (dumpDocs [sample] [(s "written_by", .map [(s "capellambse", .str (s "1.0"))])]) with
     | .ok (m, i) => m.length + i.length | .error _ => 0) = 2 := by decide
+
+example : isPep440 (s "2!1.0.12rc3.post4.dev5") = true ∧ isPep440 (s "1.01") = false ∧ isPep440 (s "1.0+local") = false := by
+  decide
 
 /-- the excluded values really do not round-trip: a malformed UUID is rejected on load, a new-object
 marker without type hint cannot be constructed -/
